@@ -1,5 +1,5 @@
 """One function per property: check_Cxx(ctx)."""
-import random, re, subprocess
+import random, re, subprocess, sys, hashlib
 from common import *
 from scenario import *
 from runner_checks import *
@@ -1265,3 +1265,146 @@ def gen_bind_tu(rng, nfuncs):
     out += calls
     out.append("  return 0;\n}")
     return "\n".join(out) + "\n", expected
+
+
+# ---- C10: failure messages -----------------------------------------------------------------------
+sys.path.insert(0, os.path.join(VERIF, "translate"))
+
+
+def gen_text(rng, maxlen=12):
+    alpha = ["%", "s", "d", "n", "5", "\\", '"', "a", " ", "%s", "%d", "%n", "%5d", "%%", "x", "(", ")", "[", "]", "'"]
+    return "".join(rng.choice(alpha) for _ in range(rng.randrange(0, maxlen)))
+
+
+def check_C10(ctx):
+    lean_check(ctx)
+    import formats as tr
+    rng = random.Random(ctx.seed * 1000 + 10)
+    # ---- the translator: regenerate the format tables from the current sources; their obligations are checked by Lean ----
+    sites, fields, arrays, legacy = tr.generate()
+    gen_path = os.path.join(ctx.work, "GenFormats.lean")
+    open(gen_path, "w").write(tr.render(sites, fields, arrays, legacy))
+    with LakeLock():
+        r = sh(["lake", "env", "lean", gen_path], cwd=LEAN)
+    out = r.stdout
+    for thm in ("literal_sites_well_typed", "variable_sites_are_built_messages", "value_templates_full_width", "legacy_macros_use_percent_s"):
+        m = re.search(r"'Cgreen\.Gen\.%s' (does not depend on any axioms|depends on axioms: \[([^\]]*)\])" % thm, out)
+        axs = [a.strip() for a in (m.group(2) or "").split(",") if a.strip()] if m else ["?"]
+        ok = m is not None and all(a in ALLOWED_AXIOMS for a in axs) and "error" not in out.split(thm)[0][-400:]
+        ctx.oblige(f"generated obligation Cgreen.Gen.{thm} (format table regenerated from /repo's sources: {len(sites)} assert_true call sites, {len(fields)} template assignments)",
+                   ok and r.returncode == 0, (out[-600:] if not ok or r.returncode else ""))
+    ctx.coverage["generated_sha"] = hashlib.sha256(open(gen_path, "rb").read()).hexdigest()[:16]
+    ctx.coverage["format_call_sites"] = len(sites)
+    # ---- correspondence through the real code (ASan) ----
+    impl = build_impl(ctx, asan=True)
+    exe = compile_harness(ctx, impl, "cmp_probe_c", ["cmp_probe.c"], out="cmp_probe_c")
+    fld = {}
+    for f in fields:
+        if "lit" in f:
+            fld[(f["func"], f["field"])] = f["lit"]
+    arr = {a["name"]: a["lit"] for a in arrays}
+    d_act = arr.get("default_actual_value_message", "\n\t\tactual value:\t\t\t[%ld]")
+    d_exp = arr.get("default_expected_value_message", "\t\texpected value:\t\t\t[%ld]")
+    ctors_int = {"equal": "create_equal_to_value_constraint", "notequal": "create_not_equal_to_value_constraint", "less": "create_less_than_value_constraint",
+                 "greater": "create_greater_than_value_constraint", "hex": "create_equal_to_hexvalue_constraint", "null": "create_is_null_constraint",
+                 "nonnull": "create_not_null_constraint", "true": "create_is_true_constraint", "false": "create_is_false_constraint"}
+    ctors_str = {"equal": "create_equal_to_string_constraint", "notequal": "create_not_equal_to_string_constraint", "contains": "create_contains_string_constraint",
+                 "notcontains": "create_does_not_contain_string_constraint", "begins": "create_begins_with_string_constraint",
+                 "notbegins": "create_does_not_begin_with_string_constraint", "ends": "create_ends_with_string_constraint", "notends": "create_does_not_end_with_string_constraint"}
+
+    def split_conv(t):
+        m = re.search(r"%(ld|lx|s|d|x)", t)
+        return (t[:m.start()], t[m.end():], m.group(1)) if m else (t, "", None)
+
+    def render_val(v, conv):
+        return format(v & (2**64 - 1), "x") if conv in ("lx", "x") else str(v)
+
+    probe_lines, model_lines, meta = [], [], []
+    B = [0, 1, -1, 7, 2**31 - 1, 2**31, -2**31 - 1, 2**32, 5000000000, -5000000000, 2**63 - 1, -2**63]
+    for _ in range(sizes(ctx, 2500, 40000)):
+        at, et = gen_text(rng) or "x", gen_text(rng) or "y"
+        if rng.random() < 0.5:
+            kind = rng.choice(list(ctors_int))
+            a, e = rng.choice(B), rng.choice(B)
+            if rng.random() < 0.1: at = str(a)       # the expression text is the value itself
+            if rng.random() < 0.05: at = rng.choice(["true", "false"])
+            ctor = ctors_int[kind]
+            name = fld[(ctor, "name")]
+            am = fld.get((ctor, "actual_value_message"), d_act); em = fld.get((ctor, "expected_value_message"), d_exp)
+            al, ac, aconv = split_conv(am); el, ec, econv = split_conv(em)
+            f1 = em != ""; f2 = not (at == str(a) or at in ("true", "false")); f3 = "not " not in name
+            ev = 0 if kind in ("null", "nonnull", "true", "false") else e
+            probe_lines.append(f"msgint {kind} {hexs(at.encode())} {hexs(et.encode())} {a} {e}")
+            model_lines.append(" ".join(["msg", str(int(f1)), str(int(f2)), str(int(f3))] + [hexs(x.encode()) for x in (name, al, ac, el, ec, at, et, render_val(a, aconv), render_val(ev, econv))]))
+            meta.append(("int", at, et if f1 else None, str(a) if (f1 and f2 and aconv == "ld") else None, str(ev) if (f1 and f2 and f3 and econv == "ld") else None))
+        else:
+            kind = rng.choice(list(ctors_str))
+            av, evs = gen_text(rng, 20), gen_text(rng, 20)
+            ctor = ctors_str[kind]
+            name = fld[(ctor, "name")]
+            em = fld.get((ctor, "expected_value_message"), d_exp)
+            el, ec, _ = split_conv(em)
+            am = arr.get("actual_value_string_format", "\n\t\tactual value:\t\t\t[\"%s\"]")
+            al, ac, _ = split_conv(am)
+            f3 = not ("not " in name and "equal " in name)
+            probe_lines.append(f"msgstr {kind} {hexs(at.encode())} {hexs(et.encode())} {hexs(av.encode())} {hexs(evs.encode())}")
+            f2 = not (at in ("true", "false") or re.fullmatch(r"-?\d+", at or "x") is not None)
+            model_lines.append(" ".join(["msg", "1", str(int(f2)), str(int(f3))] + [hexs(x.encode()) for x in (name, al, ac, el, ec, at, et, av, evs)]))
+            meta.append(("str", at, et, av if f2 else None, evs if (f2 and f3) else None))
+    # legacy assertions and mock parameter checks: exact texts from the extracted formats
+    fmts = {s["func"]: s["fmt"] for s in sites if "fmt" in s}
+    leg = []
+    for _ in range(sizes(ctx, 600, 8000)):
+        ex = gen_text(rng) or "e"
+        a, e = rng.choice(B), rng.choice(B)
+        leg.append((f"msgleg equal {hexs(ex.encode())} {hexs(str(a).encode())} {hexs(str(e).encode())}", fmts["assert_equal_"].replace("%ld", "%d") % (ex, e, a), [ex, str(a), str(e)]))
+        s1, s2 = gen_text(rng, 15), gen_text(rng, 15)
+        leg.append((f"msgleg strequal {hexs(ex.encode())} {hexs(s1.encode())} {hexs(s2.encode())}", fmts["assert_string_equal_"] % (ex, s2, s1), [ex, s1, s2]))
+        leg.append((f"msgmock {rng.choice(['equal', 'less', 'greater'])} {a} {e}", None, [str(a), str(e)]))
+    got, rc, err = run_probe(exe, probe_lines + [l for l, _, _ in leg], env=asan_env())
+    model = run_model(["fmt"], "\n".join(model_lines) + "\n").split("\n")[:-1]
+    if rc != 0 or len(got) != len(probe_lines) + len(leg):
+        k = len(got)
+        bad = (probe_lines + [l for l, _, _ in leg])[min(k, len(probe_lines) + len(leg) - 1)]
+        ctx.violation(f"[C10] producing a failure message crashed (exit {rc}) on `{bad[:200]}`: " + " ".join(l for l in err.split("\n") if "ERROR" in l or "SUMMARY" in l)[:300],
+                      bad, found_input=True, facts={"crash": True})
+        return
+    ndis = nor = 0
+
+    def viol(what, line):
+        nonlocal nor
+        nor += 1
+        if nor <= 6:
+            ctx.violation("[C10] " + what, "# feed to harness/cmp_probe_c\n" + line, found_input=True, facts={"kind": line.split(" ")[0]})
+    for line, g, m, (typ, at, et, av, ev) in zip(probe_lines, got, model, meta):
+        res, _, hexmsg = g.partition(" ")
+        msg = bytes.fromhex(hexmsg).decode("latin-1")
+        mlit, mflag = m.split(" ")
+        want = bytes.fromhex(mlit).decode("latin-1") if mlit else ""
+        if mflag != "ok":
+            ctx.oblige("the model's printed message equals its literal message (theorem C10_assert_message, executed)", False, line)
+        if res == "0" and msg != want:
+            ndis += 1
+            if ndis <= 3:
+                ctx.oblige("correspondence C10 (constraint messages)", False, f"`{line[:120]}`: model {want!r} impl {msg!r}")
+        if res == "0":
+            for label, piece in (("the asserted expression's text", at), ("the expected expression's text", et), ("the actual value", av), ("the expected value", ev)):
+                if piece is not None and (("[" + piece + "]") not in msg and ('["' + piece + '"]') not in msg):
+                    viol(f"the message does not contain {label} literally ({piece!r}): {msg!r}", line)
+    for (line, want, pieces), g in zip(leg, got[len(probe_lines):]):
+        res, _, hexmsg = g.partition(" ")
+        msg = bytes.fromhex(hexmsg).decode("latin-1")
+        if res != "0":
+            continue
+        if want is not None and msg != want:
+            ndis += 1
+            if ndis <= 3:
+                ctx.oblige("correspondence C10 (legacy messages)", False, f"`{line[:120]}`: expected {want!r} impl {msg!r}")
+        for piece in pieces:
+            if "[" + piece + "]" not in msg:
+                viol(f"the message does not contain {piece!r} literally: {msg!r}", line)
+    ctx.oblige("correspondence C10: model and implementation produce the same message text for every generated case", ndis == 0, f"{ndis} disagreements")
+    ctx.coverage["correspondence"] = {"cases": len(probe_lines) + len(leg), "disagreements": ndis, "oracle_failures": nor}
+    ctx.coverage["samples"] = probe_lines[:2] + [leg[0][0]]
+    ctx.coverage["evaluations"] = len(probe_lines) + len(leg)
+    ctx.coverage["distinct_nontrivial"] = len(set(probe_lines)) + len({l for l, _, _ in leg})
